@@ -916,6 +916,9 @@ def delete_unused_functions_and_classes(
     for def_node in funcdefs:
         usages = name_usages[def_node.name]
         if parent_class := constructor_classes.get(def_node):
+            if parent_class.name in preserve:
+                # A preserved class may be instantiated from elsewhere
+                continue
             constructor_usages = name_usages[parent_class.name]
         else:
             constructor_usages = set()
